@@ -138,6 +138,14 @@ def run_kernel(k, fns, wrapping, fields, budget):
         if vr != "sat":
             out["inconclusive"].append(f"{name}: precondition is not satisfiable ({vr}): vacuous")
             continue
+        if wrapping and os.environ.get("VERIF_NO_TV") != "1":
+            try:
+                n_ok, bad = validate_kernel(k, name, sym, ctx, outcomes)
+            except Exception as e:
+                n_ok, bad = 0, [{"error": str(e)[:200]}]
+            out["validated_vectors"] = n_ok
+            if bad:
+                out["inconclusive"].append(f"{name}: translation validation mismatch on concrete inputs: {bad[:2]}")
         for o in outcomes:
             out["paths"] += 1
             post = k.post(o.kind, o.state.events, o.value, d)
@@ -170,6 +178,68 @@ def run_kernel(k, fns, wrapping, fields, budget):
     return out
 
 
+M63 = 2 ** 63
+
+
+def vectors_for(k):
+    """Concrete inputs used to validate the translation of kernel k against the real build
+    (the repo's own unit-test vector for the window kernel, plus boundary values)."""
+    r = k.replay
+    if r is None:
+        return []
+    vs = []
+    if r[0] == "b_col_index":
+        for (skip, items, idx) in [(2, 3, 1), (2, 3, 2), (2, 3, 3), (0, 4, 3), (0, 4, 4), (7, 6, 5), (7, 6, 11529215046068469761), (3, 0, 0), (3, 1, 0), (3, 1, 1)]:
+            ln = 0 if items == 0 else 1 + (items - 1) * (skip + 1)
+            vs.append(dict(len=ln, skip=skip, items=items, idx=idx))
+    elif r[0] in ("b_index_coord", "b_index_row", "b_col"):
+        owned = r[1] == "owned"
+        for (c, rr, st, col, row) in [(3, 3, 3, 1, 1), (3, 3, 5, 2, 2), (3, 3, 3, 3, 0), (3, 3, 4, 0, 3), (1, 4, 1, 0, 3), (1, 4, 2, 1, 0), (2, 2, 2, M63, 1), (2, 2, 3, 1, M63), (4, 2, 6, 3, 1), (0, 0, 0, 0, 0)]:
+            if owned:
+                st = c
+            ln = rr * c if owned else (0 if rr == 0 else (rr - 1) * st + c)
+            v = dict(cols=c, rows=rr, len=ln, col=col, row=row)
+            if not owned:
+                v["stride"] = st
+            vs.append(v)
+    elif r[0] == "b_view":
+        owned = r[1] == "owned"
+        for (c, rr, st, sc, sr, ec, er) in [(4, 4, 4, 0, 1, 2, 3), (4, 4, 6, 1, 1, 3, 3), (4, 4, 4, 4, 4, 4, 4), (4, 4, 5, 2, 2, 2, 4), (3, 2, 3, 0, 0, 4, 2), (3, 2, 3, 2, 0, 1, 2), (3, 2, 4, 0, 0, 3, 3), (0, 0, 0, 0, 0, 0, 0), (1, 1, 1, 0, 0, 1, 1)]:
+            if owned:
+                st = c
+            ln = rr * c if owned else (0 if rr == 0 else (rr - 1) * st + c)
+            vs.append(dict(cols=c, rows=rr, stride=st, len=ln, start_c=sc, start_r=sr, end_c=ec, end_r=er))
+    return vs
+
+
+def validate_kernel(k, name, sym, ctx, outcomes):
+    """Translation validation on concrete points: for each vector, the set of path kinds the encoding
+    allows must be exactly the behaviour of the real function (release build for wrapping semantics
+    is what the native twin runs). Returns (checked, mismatches)."""
+    sys.path.insert(0, os.path.join(ROOT, "lib"))
+    import runner
+    checked, bad = 0, []
+    for vec in vectors_for(k):
+        eqs = [f"(= {ctx.inputs[n]} {v})" for n, v in vec.items() if n in ctx.inputs]
+        kinds = set()
+        for o in outcomes:
+            r, _ = mirsmt.solve(mirsmt.smt_script(sym, ctx.assume + o.state.pc + eqs), "z3")
+            if r == "sat":
+                kinds.add("return" if o.kind == "return" else "panic")
+        rep = witness_to_replay(k, vec)
+        if not rep or not kinds:
+            continue
+        vals = [list(int(v).to_bytes(8, "little")) for v in rep[1]]
+        out = runner.native_replay(rep[0], vals, "release")
+        if out["outcome"] == "assume-failed":
+            continue
+        native = "return" if out["outcome"] == "ok" else "panic"
+        checked += 1
+        if kinds != {native}:
+            bad.append({"vector": vec, "encoding_allows": sorted(kinds), "native": out["detail"]})
+    return checked, bad
+
+
 def parse_model(out, inputs):
     vals = {}
     for n, t in inputs.items():
@@ -193,7 +263,10 @@ def witness_to_replay(k, wit):
         recv = recv_i[r[1]]
         acc = {"b_index_coord": 0, "b_index_row": 1, "b_col": 2}[r[0]] + (3 if r[2] else 0)
         stride = g("stride", g("cols"))
-        return f"b_access_r{recv}_a{acc}", [g("cols"), g("rows"), stride, g("col"), g("row")]
+        # the row kernel has no column and the column kernel no row: use position 0 there
+        col = 0 if r[0] == "b_index_row" else g("col")
+        row = 0 if r[0] == "b_col" else g("row")
+        return f"b_access_r{recv}_a{acc}", [g("cols"), g("rows"), stride, col, row]
     if r[0] == "b_view":
         return f"b_view_{0 if r[1] == 'owned' else 1}", [g("cols"), g("rows"), g("stride", g("cols")), g("start_c"), g("start_r"), g("end_c"), g("end_r")]
     if r[0] == "b_ctor":
